@@ -9,6 +9,9 @@
 // conditional the read position is symbolic and with it every command string (3 lines: > 10 min, also with
 // cbmc --paths).  The files are therefore enumerated by a concrete depth-first loop that CBMC unrolls inside the
 // query, over a generated table of the well-nested files; NPARTS residue classes = NPARTS catalogue entries.
+// (c09_sym.cxx is the complement: fully symbolic line kinds, made tractable by writing the directive words into the SSO
+// buffer directly, a branch-free operator==, deferring the recursion through the condition handlers, and checking one
+// dispatch step from an arbitrary reference-consistent state.  Here every function is real and the files are concrete.)
 //
 // CHARLEVEL=0 (token level): get / skip_whitespace / skip_comment / get_preprocessor_command / get_preprocessor_args
 //   are replaced by a line-level reader that delivers '#', the command word and the argument string of line i (or the
